@@ -24,6 +24,9 @@ type histCase struct {
 	Schemas []struct {
 		Text  string      `json:"text"`
 		Types [][2]string `json:"types"`
+		// Nested: user types that bring their OWN types: [name, text, [nested...]] (recursively); they are added to the root only,
+		// and each nested list only to its owner (the library merges the tables when the root compiles)
+		Nested []json.RawMessage `json:"nested"`
 		// UseShared: names of the shared types added to this schema (absent = all of them)
 		UseShared []string `json:"use_shared"`
 	} `json:"schemas"`
@@ -73,6 +76,11 @@ func buildPool(c *histCase) *pool {
 				if use {
 					_ = x.AddType(t[0], shared[i])
 				}
+			}
+		}
+		for _, raw := range s.Nested {
+			if name, t := buildNested(raw); t != nil {
+				_ = root.AddType(name, t)
 			}
 		}
 		p.schemas = append(p.schemas, root)
@@ -229,6 +237,7 @@ func init() {
 		if n.N <= 0 {
 			n.N = 100
 		}
+		docTexts = c.Docs
 		seen := map[string]bool{}
 		var out []string
 		for i := 0; i < n.N; i++ {
@@ -238,7 +247,12 @@ func init() {
 				r1, _ := runOp(p, []interface{}{"check", float64(si)})
 				r2, _ := runOp(p, []interface{}{"example", float64(si)})
 				r3, _ := runOp(p, []interface{}{"used", float64(si)})
-				parts = append(parts, r1+"/"+r2+"/"+r3)
+				one := core(r1) + "/" + core(r2) + "/" + r3
+				for di := range p.docs {
+					rv, _ := runOp(p, []interface{}{"validate", float64(si), float64(di)})
+					one += "/" + core(rv)
+				}
+				parts = append(parts, one)
 			}
 			k := strings.Join(parts, ";")
 			if !seen[k] {
@@ -266,4 +280,33 @@ func keepErr(err error) (string, func() string) {
 	}
 	first := render()
 	return first, render
+}
+
+func buildNested(raw json.RawMessage) (string, *js.Schema) {
+	var parts []json.RawMessage
+	if json.Unmarshal(raw, &parts) != nil || len(parts) < 2 {
+		return "", nil
+	}
+	var name, text string
+	_ = json.Unmarshal(parts[0], &name)
+	_ = json.Unmarshal(parts[1], &text)
+	t := js.New(name, text)
+	if len(parts) > 2 {
+		var subs []json.RawMessage
+		_ = json.Unmarshal(parts[2], &subs)
+		for _, sub := range subs {
+			if n2, t2 := buildNested(sub); t2 != nil {
+				_ = t.AddType(n2, t2)
+			}
+		}
+	}
+	return name, t
+}
+
+// core: code and position of an error result (the rendered text after '#' is compared only with its own later rendering)
+func core(r string) string {
+	if i := strings.Index(r, "#"); i >= 0 && (strings.HasPrefix(r, "E") || strings.HasPrefix(r, "ok")) {
+		return r[:i]
+	}
+	return r
 }
